@@ -152,10 +152,13 @@ func genSingle(t *rapid.T) Single {
 // ---------------------------------------------------------------------------------------------
 // helpers shared by the three implementations
 
-func mapf(x int) int { return (x*3 + 1) % 11 }
+// cbCalls counts invocations of the user callbacks (tests in this package run sequentially).
+var cbCalls int
 
-func (c Single) keep(x int) bool    { return c.Mask&(1<<uint(x%U)) != 0 }
-func (c Single) same(a, b int) bool { return c.Classes[a%U] == c.Classes[b%U] }
+func mapf(x int) int { cbCalls++; return (x*3 + 1) % 11 }
+
+func (c Single) keep(x int) bool    { cbCalls++; return c.Mask&(1<<uint(x%U)) != 0 }
+func (c Single) same(a, b int) bool { cbCalls++; return c.Classes[a%U] == c.Classes[b%U] }
 
 func total(nest [][]int) int {
 	n := 0
@@ -299,9 +302,15 @@ func drive(c Single, next func() ([]int, bool), handed func() int) (trace, error
 	if h := handed(); h != 0 {
 		return tr, vk.Violf("eager", "%s pulled %d source items before the first Next call", c.Comb, h)
 	}
+	cbCalls = 0
+	perItem := c.Comb == "Map" || c.Comb == "Filter" || c.Comb == "While" || c.Comb == "CompactFunc"
 	for c.Pulls < 0 || len(tr.outs) < c.Pulls {
 		o, ok := next()
 		tr.handed = append(tr.handed, handed())
+		if perItem && cbCalls > handed() {
+			// the user's function is only ever shown items the source yielded (never, say, a zero value at the end)
+			return tr, vk.Violf("callback-on-phantom-item", "%s: the user function has been called %d times although the source has yielded only %d items", c.Comb, cbCalls, handed())
+		}
 		if !ok {
 			tr.ends++
 			for i := 0; i < c.Extra; i++ {
